@@ -166,6 +166,13 @@ def binop (op : BinOp) (a b : Val) : Option Val :=
   | .seq, x, y => some (.bool (strictEq x y))
   | .sne, x, y => some (.bool (!strictEq x y))
 
+/-- the fragment's numbers are the integers a double holds exactly, its strings are short: a run that leaves this domain
+    is abandoned (reported like an exhausted budget), never compared -/
+def tooBig : Val → Bool
+  | .num n => n.natAbs > 9007199254740992
+  | .str x => x.length > 4096
+  | _ => false
+
 -- ------------------------------------------------------------------ environments
 def lookupIn (sc : List Binding) (x : String) : Option Binding := sc.find? (fun b => b.name == x)
 
@@ -261,7 +268,9 @@ mutual
         (match evalE fuel s env a with
          | .ok s va =>
            (match evalE fuel s env b with
-            | .ok s vb => (match binop op va vb with | some v => .ok s v | none => .thr s (.err "OutsideFragment"))
+            | .ok s vb => (match binop op va vb with
+                           | some v => if tooBig v then .fuel else .ok s v     -- outside the fragment's value domain: give up
+                           | none => .thr s (.err "OutsideFragment"))
             | r => r)
          | r => r)
       | .and a b => (match evalE fuel s env a with | .ok s va => if truthy va then evalE fuel s env b else .ok s va | r => r)
